@@ -7,14 +7,14 @@ from common import compare_gen, is_real_finite, rel_close
 ID = 'C04'
 LEAN_MODULES = ['Dhlldv.Props.C04']
 PROP_MODULES = ['Dhlldv.Props.C04']
-PROVED = ['carrier-liquid gradient positive on E and strictly increasing in line speed (analytic lemma: L(v)/v strictly decreasing for L = -log(c1 + k v^-0.9))',
+PROVED = ['carrier-liquid gradient positive on E, strictly increasing in line speed (analytic lemma: L(v)/v strictly decreasing for L = -log(c1 + k v^-0.9)) and strictly decreasing in pipe diameter',
           'homogeneous excess gradient in [0, il] on E below the sliding-flow onset or with the correction off, and >= 0 with the blend (uses lambda <= 8/225 on E, proved: Re^0.9 >= 2900, exp(6.105) < 475)',
           'heterogeneous excess gradient strictly decreasing in line speed on E, both settings of both switches',
           'free settling velocity strictly increasing in grain size and in relative density; hindered settling positive, below the free value, strictly decreasing in concentration',
           'selected spatial-concentration excess gradient >= 0 on E',
           'no jump at the branch thresholds: both branches of the homogeneous and heterogeneous models coincide at d = 0.015 Dp; the generated sqrt(Cx) is the two-piece function whose pieces meet at both breakpoints',
           'the selection max(min(min FB SB) He) Ho is 1-Lipschitz in its four inputs, hence (with C01) the reported gradient cannot amplify a change of the regime models']
-HYPOTHESES = ['liquid gradient decreasing in Dp; fixed-bed Erhg increasing in line speed; selected Erhg >= 0 for delivered-concentration input (needs 0 <= Xi < 1, C05) - searched on the implementation on every run']
+HYPOTHESES = ['fixed-bed Erhg increasing in line speed; selected Erhg >= 0 for delivered-concentration input (needs 0 <= Xi < 1, C05) - searched on the implementation on every run']
 MONITORED = ['the quantitative no-jump clause (1e-7 relative input change => < 1e-3 relative output change) with inputs placed on and +-1e-7 around every threshold of the code']
 RULE = ('envelope points with every branch threshold hit exactly and from both sides (d/Dp = 0.015, d = 2 mm, the sqrt(Cx) breakpoints located by bisection, sub-layer cap, regime '
         'transitions located by bisection on vls); each point with 8 single-input perturbations of 1e-7 and monotonicity probes; non-trivial = distinct (regime, threshold kind) classes')
